@@ -642,7 +642,7 @@ func C15(ctx *core.Ctx) error {
 	mcPlan := []c15MC{mc5s, mc5}
 	if ctx.Thorough() {
 		mc5.AltN = 4
-		mc5s.MaxT, mc5s.MaxN, mc5s.AltN, mc5s.Secrets = 2, 3, 2, c15Range(-5, 5)
+		mc5s.MaxT, mc5s.MaxN, mc5s.AltN, mc5s.Secrets = 2, 3, 2, c15Range(-3, 3)
 		mcPlan = []c15MC{mc5s, mc5, mc7s, mc7}
 	}
 	var mcRes []tlc.Result
